@@ -200,6 +200,13 @@ def observed_of(m):
 
 
 def same_host(a, b):
+    # RFC 7252 5.10.1: a Uri-Host value is a reg-name or an *IP-literal*, i.e. "[" address "]"; a reg-name that
+    # percent-decodes to exactly that (coap://%5B%3A%3A%5D/) yields the same option value as the literal, so the two
+    # URIs name one resource by the RFC's own algorithm (found by the thorough tier; not a defect of the library)
+    if a.startswith("[") and a.endswith("]"):
+        a = a[1:-1]
+    if b.startswith("[") and b.endswith("]"):
+        b = b[1:-1]
     try:
         za, zb = a.partition("%")[2], b.partition("%")[2]
         ia, ib = ipaddress.ip_address(a.partition("%")[0]), ipaddress.ip_address(b.partition("%")[0])
